@@ -330,6 +330,68 @@ pub fn run(rep: &mut Report, tier: &str, seed: u64, shard: (u32, u32), replay: O
             seqs.push(Seq { steps: (0..len).map(|_| (CLIENTS[rng.gen_range(0..CLIENTS.len())], OBS[rng.gen_range(0..OBS.len())])).collect(), probe_obs: if rng.gen_bool(0.6) { Obs::Valid } else { OBS[rng.gen_range(0..OBS.len())] } });
         }
     }
+    // the exporter is started before the daemon: the observation socket does not exist yet (every
+    // connect is refused), later it appears. The exporter must come up, answer with an error status
+    // meanwhile, and serve data once the socket is there.
+    let replay_is_startup = replay.and_then(|p| std::fs::read_to_string(p).ok()).map_or(false, |t| t.contains("\"start_up\""));
+    if (replay.is_none() || replay_is_startup) && shard.0 == 0 {
+        for absent_kind in ["no-socket-file", "stale-socket-file"] {
+            let dir = scratch_dir(&format!("c20-late-{}-{absent_kind}", std::process::id()));
+            let sock = dir.join("obs.sock");
+            if absent_kind == "stale-socket-file" {
+                // a socket file nobody listens on (left behind by a daemon that was killed)
+                drop(std::os::unix::net::UnixListener::bind(&sock));
+            }
+            let replay_v = json!({"property": "C20", "case": {"start_up": absent_kind}});
+            rep.evaluations += 1;
+            rep.distinct_case(&format!("start-up|{absent_kind}"));
+            match Exporter::start(&dir, &sock) {
+                Err(e) if e.contains("exited during start-up") => {
+                    rep.violation(&format!("C20|exporter-exited|observation-socket-refused-at-start|{absent_kind}"), &format!("exporter started while the observation socket refuses connections ({absent_kind}): {e}; well-formed requests cannot be served"), replay_v);
+                }
+                Err(e) => rep.inconclusive(&format!("start-up phase: {e}")),
+                Ok(mut exp) => {
+                    let mut bad = None;
+                    for _ in 0..3 {
+                        match http_get(exp.port, Duration::from_secs(8)) {
+                            Ok(r) if r.status >= 500 => rep.ev("start_up_refused_probe_error_status"),
+                            Ok(r) => bad = Some(format!("status {} while the observation socket refuses connections", r.status)),
+                            Err(e) => {
+                                if let Some(st) = exp.exited() {
+                                    rep.violation(&format!("C20|exporter-exited|observation-socket-refused-at-start|{absent_kind}"), &format!("exporter exited ({st}) when asked for metrics while the observation socket refuses connections"), replay_v.clone());
+                                } else {
+                                    rep.inconclusive(&format!("start-up phase probe failed without a witness: {e:?}"));
+                                }
+                                bad = None;
+                                break;
+                            }
+                        }
+                    }
+                    if let Some(b) = bad {
+                        rep.violation("C20|bad-response|probe-obs-Refused", &format!("start-up phase: {b}"), replay_v.clone());
+                    }
+                    // the daemon comes up
+                    let obs = ObsServer::start(sock.clone(), ObsMode::Valid(valid_json.clone()));
+                    if exp.exited().is_none() {
+                        match http_get(exp.port, Duration::from_secs(8)) {
+                            Ok(r) if r.status == 200 => rep.ev("start_up_socket_appeared_probe_ok"),
+                            Ok(r) => rep.violation(&format!("C20|late-socket-not-served|{absent_kind}"), &format!("the observation socket appeared after the exporter had started, a well-formed request still gets status {}", r.status), replay_v.clone()),
+                            Err(e) => {
+                                if let Some(st) = exp.exited() {
+                                    rep.violation(&format!("C20|exporter-exited|observation-socket-refused-at-start|{absent_kind}"), &format!("exporter exited ({st}) after the observation socket appeared"), replay_v.clone());
+                                } else {
+                                    rep.inconclusive(&format!("start-up phase probe failed without a witness: {e:?}"));
+                                }
+                            }
+                        }
+                    }
+                    drop(obs);
+                    drop(exp);
+                }
+            }
+            let _ = std::fs::remove_dir_all(&dir);
+        }
+    }
     let mut ctx = match start_ctx(&format!("c20-{}", shard.0)) {
         Ok(c) => c,
         Err(e) => {
